@@ -33,7 +33,7 @@ NOT_DECIDED = ["text of mis-nested *removable* elements of different names (inhe
                "html.parser's own tokenisation (CDATA content mode of script/style, attribute parsing)"]
 TRUSTED = ["html.parser emits handle_starttag for every start tag, handle_endtag for every end tag, none for void elements' (absent) end tags, and handle_startendtag (default: start then end) for self-closing tags",
            "abstract interpreter sa/engine/objinterp.py"]
-FLOORS = {"C17-SKIP": 400, "C17-N4": 4, "C17-N5": 2}
+FLOORS = {"C17-SKIP": 400, "C17-N4": 4, "C17-N5": 2, "C17-EOF": 3}
 
 REMOVABLE = ["script", "style", "noscript", "iframe", "object", "embed", "applet"]
 HTML_VOID = {"area", "base", "br", "col", "embed", "hr", "img", "input", "link", "meta", "param", "source", "track", "wbr"}
@@ -322,4 +322,64 @@ def _is_regex_obj(ctx, m, e) -> bool:
     return False
 
 
-RULES = [rule_skip, rule_n4, rule_n5]
+def eof_sites(ctx: Ctx):
+    """Every place where an html.parser subclass is fed: (rel, function, variable, close call or None, flush kind, feed call).
+
+    flush kind: "guarded" = V.handle_data(<from V.rawdata>) under a test that the rest contains no '<'; "unguarded" = the same
+    without that test; None = the buffer left by feed() is never delivered."""
+    parsers = set()
+    for m in ctx.p.modules.values():
+        for c in m.classes.values():
+            if any((dotted(b) or "").split(".")[-1] == "HTMLParser" for b in c.node.bases):
+                parsers.add(c.name)
+    if len(parsers) < 2:
+        raise AnalysisError(f"C17-EOF: expected the two html.parser subclasses (HTML tree builder, EPUB text extractor), found {sorted(parsers)}")
+    out = []
+    for m in ctx.p.modules.values():
+        if "/tests/" in m.rel:
+            continue
+        for fi in m.functions.values():
+            insts = {n.targets[0].id for n in walk_own(fi.node) if isinstance(n, ast.Assign) and len(n.targets) == 1 and isinstance(n.targets[0], ast.Name) and isinstance(n.value, ast.Call) and (dotted(n.value.func) or "").split(".")[-1] in parsers}
+            for V in sorted(insts):
+                feeds = [c for c in calls_in(fi) if isinstance(c.func, ast.Attribute) and c.func.attr == "feed" and isinstance(c.func.value, ast.Name) and c.func.value.id == V]
+                if not feeds:
+                    continue
+                close = next((c for c in calls_in(fi) if isinstance(c.func, ast.Attribute) and c.func.attr == "close" and isinstance(c.func.value, ast.Name) and c.func.value.id == V), None)
+                rest = {n.targets[0].id for n in walk_own(fi.node) if isinstance(n, ast.Assign) and len(n.targets) == 1 and isinstance(n.targets[0], ast.Name) and any(isinstance(a, ast.Attribute) and a.attr == "rawdata" and isinstance(a.value, ast.Name) and a.value.id == V for a in ast.walk(n.value))}
+                kind = None
+                for c in calls_in(fi):
+                    if isinstance(c.func, ast.Attribute) and c.func.attr == "handle_data" and isinstance(c.func.value, ast.Name) and c.func.value.id == V and c.args:
+                        names = {x.id for x in ast.walk(c.args[0]) if isinstance(x, ast.Name)}
+                        direct = any(isinstance(a, ast.Attribute) and a.attr == "rawdata" for a in ast.walk(c.args[0]))
+                        if not (names & rest or direct):
+                            continue
+                        guarded = False
+                        for i in walk_own(fi.node):
+                            if isinstance(i, ast.If) and any(x is c for st in i.body for x in ast.walk(st)):
+                                for t in ast.walk(i.test):
+                                    if isinstance(t, ast.Compare) and len(t.ops) == 1 and isinstance(t.ops[0], ast.NotIn) and isinstance(t.left, ast.Constant) and t.left.value == "<":
+                                        guarded = True
+                        kind = "guarded" if guarded else "unguarded"
+                out.append((m.rel, fi, V, close, kind, feeds[0]))
+    return out
+
+
+def rule_eof(ctx: Ctx) -> RuleReport:
+    """What html.parser still buffers at end of input: unterminated markup (comment, tag, script) must not become text."""
+    rep = RuleReport("C17-EOF", "end of input: close() is never called on the html.parser subclasses (it hands unterminated comments/markup to handle_data as text); "
+                     "the rest of the buffer is delivered only when it contains no '<'")
+    sites = eof_sites(ctx)
+    if len(sites) < 3:
+        raise AnalysisError(f"C17-EOF: only {len(sites)} feed() sites found (3 confirmed: read_html, msg _html_to_text, EPUB chapter)")
+    for rel, fi, V, close, kind, feed in sites:
+        rep.unit(fi.key)
+        if close is not None:
+            rep.fail(Finding("C17-EOF", rel, fi.qual, f"{V}.close()", f"`{short(close, 40)}` is called on an html.parser subclass: at end of input html.parser treats a comment (or conditional comment, declaration, tag) that is not terminated as character data and passes `<!-- ...` to handle_data, so comment content appears in the text", line=close.lineno))
+        elif kind == "unguarded":
+            rep.fail(Finding("C17-EOF", rel, fi.qual, f"{V}.handle_data(rawdata) unguarded", "the parser's remaining buffer is delivered as text without checking that it holds no '<': an unterminated comment or script at end of input becomes text", line=feed.lineno))
+        else:
+            rep.ok({"site": f"{fi.qual}: {V}.feed(...)", "close": "not called", "rest": kind or "not delivered"})
+    return rep
+
+
+RULES = [rule_skip, rule_n4, rule_n5, rule_eof]
